@@ -212,6 +212,16 @@ def run(ctx):
                 if ctx.mine(i):
                     ctx.check(("isolate", prov, seed * 7919 + 13, ln, ("VEVENT", "VTODO", "VCALENDAR", "VALARM", "TOPLEVEL", "VEVENT")[seed]), "isolation", enum=True)
                 i += 1
+    # VTIMEZONE definitions with several identical observances (with and without TZNAME): a name has to be made up for each
+    for prov in ("zoneinfo", "pytz"):
+        for kind in ("STANDARD", "DAYLIGHT"):
+            for k in (2, 3, 4, 6):
+                for named in (0, 1):
+                    if ctx.mine(i):
+                        ob = (f"BEGIN:{kind}\r\nDTSTART:19701025T030000\r\nTZOFFSETFROM:+0200\r\nTZOFFSETTO:+0100\r\n" + ("TZNAME:X\r\n" if named else "") + f"END:{kind}\r\n")
+                        doc = ("BEGIN:VCALENDAR\r\nBEGIN:VTIMEZONE\r\nTZID:Verif/Same\r\n" + ob * k + "END:VTIMEZONE\r\nBEGIN:VEVENT\r\nDTSTART;TZID=Verif/Same:20240101T120000\r\nEND:VEVENT\r\nEND:VCALENDAR\r\n")
+                        ctx.check(("parse", prov, "Calendar", 0, doc.encode("utf-8")), "identical-observances", enum=True)
+                    i += 1
     # the witness of the known step-budget finding (and its zoneinfo twin, which must stay within budget)
     witness = (b"BEGIN:VCALENDAR\r\nBEGIN:VTIMEZONE\r\nTZID:Verif/Minutely\r\nBEGIN:STANDARD\r\nDTSTART:19701025T030000\r\nTZOFFSETFROM:+0200\r\nTZOFFSETTO:+0100\r\n"
                b"RRULE:FREQ=MINUTELY\r\nEND:STANDARD\r\nEND:VTIMEZONE\r\nEND:VCALENDAR\r\n")
